@@ -1,1 +1,132 @@
+//! Hooked into `rust/src/order_book.rs` (child module: wraps a core book directly).  C18: the
+//! Python `OrderBook` class is a transparent view of the Rust core.
 #![allow(dead_code)]
+#![allow(clippy::all)]
+#![cfg(kani)]
+use super::*;
+use crate::types::{cast_order, cast_trade};
+use bourse_book::types::{Order, Status, Trade};
+use bourse_book::verif::book::*;
+use bourse_book::verif::src::*;
+use bourse_book::{vcheck, vcover};
+
+/// stand-in for the lazy construction of a Python exception object (reaching the real one is a
+/// Kani internal compiler error): the path simply ends here
+pub fn stub_new_err<A: pyo3::PyErrArguments + Send + Sync + 'static>(_args: A) -> PyErr {
+    kani::assume(false);
+    loop {}
+}
+
+pub fn code_of(s: Status) -> u8 {
+    match s {
+        Status::New => 0,
+        Status::Active => 1,
+        Status::Filled => 2,
+        Status::Cancelled => 3,
+        Status::Rejected => 4,
+    }
+}
+
+/// every scalar getter of the wrapper returns what the core returns, statuses as documented codes
+#[kani::proof]
+#[kani::unwind(4)]
+pub fn c18_orderbook_getters() {
+    let p: Plain<3> = gen_plain::<3>(2, CFG);
+    let w = OrderBook(build::<3, 10>(&p, 0));
+    let core = build::<3, 10>(&p, 0);
+    vcheck!(w.bid_vol() == core.bid_vol() && w.ask_vol() == core.ask_vol(), "PY.total_volumes_are_the_cores");
+    vcheck!(w.best_bid_vol() == core.bid_best_vol() && w.best_ask_vol() == core.ask_best_vol(), "PY.touch_volumes_are_the_cores_bid_for_bid_ask_for_ask");
+    vcheck!(w.best_bid_vol_and_orders() == core.bid_best_vol_and_orders() && w.best_ask_vol_and_orders() == core.ask_best_vol_and_orders(), "PY.touch_volume_and_count_are_the_cores");
+    vcheck!(w.bid_ask() == core.bid_ask(), "PY.bid_ask_is_the_cores");
+    let id = any_usize();
+    assume(id < 2);
+    vcheck!(w.order_status(id) == code_of(entry_order(&p.e[id]).status), "PY.status_codes_0_new_1_active_2_filled_3_cancelled_4_rejected");
+    vcover!(w.order_status(id) == 4, "cover.rejected_order");
+    vcover!(w.best_bid_vol() != w.best_ask_vol(), "cover.asymmetric_book");
+    core::mem::forget(w);
+    core::mem::forget(core);
+}
+
+/// every mutating method forwards its arguments unchanged to the core (sides as True = bid)
+#[kani::proof]
+#[kani::unwind(4)]
+#[kani::stub(pyo3::exceptions::PyValueError::new_err, stub_new_err)]
+pub fn c18_orderbook_operations_off() {
+    let p: Plain<3> = gen_plain::<3>(2, OFF);
+    let mut w = OrderBook(build::<3, 10>(&p, 0));
+    let mut r = p;
+    let which = any_u8();
+    assume(which < 6);
+    let id = any_usize();
+    assume(id < 2);
+    match which {
+        0 => {
+            let t2 = any_u64();
+            w.set_time(t2);
+            r.t = t2;
+        }
+        1 => {
+            w.enable_trading();
+            r.trading = true;
+        }
+        2 => {
+            w.disable_trading();
+            r.trading = false;
+        }
+        3 => {
+            w.cancel_order(id);
+            ref_cancel(&mut r, id);
+        }
+        4 => {
+            // pure reductions and same-price re-queues
+            let nv = any_u32();
+            assume(nv >= 1 && nv <= entry_order(&p.e[id]).vol);
+            w.modify_order(id, None, Some(nv));
+            ref_modify(&mut r, id, None, Some(nv));
+        }
+        _ => {
+            let bid = any_bool();
+            let vol = any_u32();
+            let trader = any_u32();
+            let price = if any_bool() { Some(g_price(true, 1)) } else { None };
+            assume_valid_incoming(&p, bid, vol, price, false);
+            let got = w.place_order(bid, vol, trader, price);
+            let exp = ref_create(&mut r, bid, vol, trader, price);
+            ref_place(&mut r, 2);
+            let same_id = match (&got, exp) {
+                (Ok(g), Some(e)) => *g == e,
+                _ => false,
+            };
+            // (no drop glue for the Python error object: reaching pyo3's reference-count pool is a Kani ICE)
+            core::mem::forget(got);
+            vcheck!(same_id, "PY.place_order_returns_the_cores_id");
+        }
+    }
+    vcheck!(table_matches(&w.0, &r), "PY.wrapper_state_equals_core_driven_by_the_same_call");
+    vcheck!(w.0.get_trade_vol() == r.trade_vol && w.0.get_trades().len() == 0, "PY.no_trade_while_disabled");
+    vcover!(which == 5 && r.n == 3 && entry_order(&r.e[2]).status == Status::Active && is_bid(entry_order(&r.e[2]).side), "cover.bid_placed_through_the_wrapper");
+    core::mem::forget(w);
+}
+
+/// record casts: tuple position k holds the documented field k
+#[kani::proof]
+pub fn c18_record_casts() {
+    let st = any_u8();
+    assume(st < 5);
+    let status = match st {
+        0 => Status::New,
+        1 => Status::Active,
+        2 => Status::Filled,
+        3 => Status::Cancelled,
+        _ => Status::Rejected,
+    };
+    let bid = any_bool();
+    let o = Order { side: mk_side(bid), status, arr_time: any_u64(), end_time: any_u64(), vol: any_u32(), start_vol: any_u32(), price: any_u32(), trader_id: any_u32(), order_id: any_usize() };
+    let t = cast_order(&o);
+    vcheck!(t.0 == bid && t.1 == st && t.2 == o.arr_time && t.3 == o.end_time && t.4 == o.vol && t.5 == o.start_vol && t.6 == o.price && t.7 == o.trader_id && t.8 == o.order_id,
+        "PY.order_tuple_is_side_status_arrival_end_volume_start_volume_price_trader_id");
+    let tr = Trade { t: any_u64(), side: mk_side(bid), price: any_u32(), vol: any_u32(), active_order_id: any_usize(), passive_order_id: any_usize() };
+    let u = cast_trade(&tr);
+    vcheck!(u.0 == tr.t && u.1 == bid && u.2 == tr.price && u.3 == tr.vol && u.4 == tr.active_order_id && u.5 == tr.passive_order_id, "PY.trade_tuple_is_time_side_price_volume_active_passive");
+    vcover!(t.1 == 4 && !t.0, "cover.rejected_ask");
+}
